@@ -560,7 +560,12 @@ def prove_ptr(prog, s, ctx, R, facts):
             n_p = P.add(P.poly(g, args[need_arg], RG), P.const(bound[1]))
             ba = g.nodes[g.strip(args[pidx], 'all')]
             size_p = None
-            if ba['k'] == 'DeclRefExpr' and ba['decl'].get('dk') == 'local':
+            if ba['k'] == 'CXXMemberCallExpr' and ba['callee']['name'] == 'get':
+                import p_c18 as _p18
+                an_ = _p18.as_new(g, ba['id'])
+                if an_ and an_['array'] and an_['size'] is not None:
+                    size_p = an_['size']
+            elif ba['k'] == 'DeclRefExpr' and ba['decl'].get('dk') == 'local':
                 init = local_init(g, ba['decl']['id'])
                 import p_c18 as _p18
                 an_ = _p18.as_new(g, init) if init is not None else None
@@ -576,6 +581,9 @@ def prove_ptr(prog, s, ctx, R, facts):
                         size_p = an_['size']
             if size_p is None:
                 return 'undecided', None, 'cannot resolve the allocation of the buffer passed at %s' % g.loc(cn['id'])
+            import p_c18 as _p18c
+            size_p = _p18c.const_subst(prog, g.cls, size_p)
+            n_p = _p18c.const_subst(prog, g.cls, n_p)
             d = P.diff_const(size_p, n_p)
             if d is None or d < 0:
                 return 'unproved', None, 'caller %s passes a buffer of %s for %s elements' % (g.loc(cn['id']), P.show(size_p) if size_p else '?', P.show(n_p))
